@@ -138,6 +138,25 @@ pub fn options_j(o: &Options) -> J {
 	})
 }
 
+/// A value printed through the public two-phase interface: `pre_compute_size` fills the size table, `fmt_with_size` consumes it.
+/// `wrapped`: through the generic impls for `Meta<Stripped<&Value>, _>`.
+struct TwoPhase<'a>(&'a Value, &'a Options, bool);
+impl<'a> std::fmt::Display for TwoPhase<'a> {
+	fn fmt(&self, f: &mut std::fmt::Formatter) -> std::fmt::Result {
+		use json_syntax::print::{PrecomputeSize, PrintWithSize};
+		let mut sizes = Vec::new();
+		let mut index = 0;
+		if self.2 {
+			let w = locspan::Meta(locspan::Stripped(self.0), 1u8);
+			w.pre_compute_size(self.1, &mut sizes);
+			w.fmt_with_size(f, self.1, 0, &sizes, &mut index)
+		} else {
+			self.0.pre_compute_size(self.1, &mut sizes);
+			self.0.fmt_with_size(f, self.1, 0, &sizes, &mut index)
+		}
+	}
+}
+
 /// the compact preset AS DOCUMENTED (no indentation, no spacing, no limits) - not whatever `Options::compact()` returns
 pub fn is_documented_compact(o: &Options) -> bool {
 	matches!(o.indent, Indent::Spaces(0))
@@ -207,8 +226,15 @@ pub fn replay_print(rep: &mut Report, rec: &J) {
 		_ => None,
 	};
 	let by_ref = guarded(|| (&&v).print_with(o.clone()).to_string());
-	rep.add("print_calls", 1 + direct.is_some() as u64);
-	for (how, r) in [("component type", direct), ("reference", Some(by_ref))] {
+	// the generic impls for annotated values (locspan::Meta, locspan::Stripped) and the two-phase interface behind
+	// Print for Value (pre_compute_size, then fmt_with_size with the sizes), entered directly and through the wrappers
+	let by_meta = guarded(|| locspan::Meta(locspan::Stripped(v.clone()), 7u8).print_with(o.clone()).to_string());
+	let by_stripped = guarded(|| locspan::Stripped(locspan::Meta(&v, "m")).print_with(o.clone()).to_string());
+	let two_phase = guarded(|| TwoPhase(&v, &o, false).to_string());
+	let two_phase_wrapped = guarded(|| TwoPhase(&v, &o, true).to_string());
+	rep.add("print_calls", 5 + direct.is_some() as u64);
+	for (how, r) in [("component type", direct), ("reference", Some(by_ref)), ("Meta<Stripped<Value>>", Some(by_meta)), ("Stripped<Meta<&Value>>", Some(by_stripped)),
+		("value through pre_compute_size + fmt_with_size", Some(two_phase)), ("Meta<Stripped<&Value>> through pre_compute_size + fmt_with_size", Some(two_phase_wrapped))] {
 		match r {
 			Some(Ok(t)) if t != exp => {
 				let aspect = if is_compact { "C08.compact" } else { "C13.layout" };
